@@ -41,14 +41,14 @@ type BinaryIndex struct {
 	Package        string
 	Source         string
 	Version        version.Version
-	InstalledSize  int     `control:"Installed-Size"`
+	InstalledSize  int `control:"Installed-Size"`
 	Maintainer     string
 	Architecture   dependency.Arch
 	MultiArch      string `control:"Multi-Arch"`
 	Description    string
 	Homepage       string
 	DescriptionMD5 string   `control:"Description-md5"`
-	Tags           []string `delim:", "`
+	Tags           []string `delim:"," strip:"\n\r\t "`
 	Section        string
 	Priority       string
 	Filename       string
@@ -152,7 +152,7 @@ type SourceIndex struct {
 	Paragraph
 
 	Package  string
-	Binaries []string `control:"Binary" delim:"," strip:" "`
+	Binaries []string `control:"Binary" delim:"," strip:"\n\r\t "`
 
 	Version    version.Version
 	Maintainer string
